@@ -12,6 +12,7 @@ regenerated from `src/skinny128-parallel-vec128.c` on every run.
 import SkinnyVerif.Lemmas.Vec128
 import SkinnyVerif.Lemmas.Vec256
 import SkinnyVerif.Lemmas.Vec64
+import SkinnyVerif.Lemmas.VecU0
 import SkinnyVerif.Properties.C01
 
 namespace SkinnyVerif.Properties
@@ -231,5 +232,65 @@ theorem C07_vec64_spec (ks0 : KeySched 32) (hlen : 40 ≤ ks0.sched.length) (key
   have h := C07_vec64_block ks input j hj blk hblk
   have c := C01_skinny64 .c32le ks0 hlen key blk hk j2 j3
   exact ⟨h.1.trans c.2.1, h.2.trans c.2.2⟩
+
+/-! ## the byte-wise load / store paths (`SKINNY_UNALIGNED = 0`) of the three vector files
+
+The round bodies do not depend on the switch; the load and store segments do.  Assembled from the
+pieces translated under that configuration, the batch functions are *equal* to the ones of the default
+configuration (C12 for the vector files), hence every theorem above holds for them too. -/
+
+def vecEnc4u (sched : List (BitVec 64)) (input : BitVec 512) : BitVec 512 :=
+  let rows := sched.foldl (fun rws sk => mapRows (fun t => v128p_enc_round t.1 t.2.1 t.2.2.1 t.2.2.2 sk) rws) (v128p_enc_load_u0 input)
+  v128p_enc_store_u0 rows.1 rows.2.1 rows.2.2.1 rows.2.2.2
+def vecDec4u (sched : List (BitVec 64)) (input : BitVec 512) : BitVec 512 :=
+  let rows := sched.foldl (fun rws sk => mapRows (fun t => v128p_dec_round t.1 t.2.1 t.2.2.1 t.2.2.2 sk) rws) (v128p_dec_load_u0 input)
+  v128p_dec_store_u0 rows.1 rows.2.1 rows.2.2.1 rows.2.2.2
+def vecEnc8u (sched : List (BitVec 64)) (input : BitVec 1024) : BitVec 1024 :=
+  let rows := sched.foldl (fun rws sk => mapRows8 (fun t => v256p_enc_round t.1 t.2.1 t.2.2.1 t.2.2.2 sk) rws) (v256p_enc_load_u0 input)
+  v256p_enc_store_u0 rows.1 rows.2.1 rows.2.2.1 rows.2.2.2
+def vecDec8u (sched : List (BitVec 64)) (input : BitVec 1024) : BitVec 1024 :=
+  let rows := sched.foldl (fun rws sk => mapRows8 (fun t => v256p_dec_round t.1 t.2.1 t.2.2.1 t.2.2.2 sk) rws) (v256p_dec_load_u0 input)
+  v256p_dec_store_u0 rows.1 rows.2.1 rows.2.2.1 rows.2.2.2
+def vecEnc8hu (sched : List (BitVec 32)) (input : BitVec 512) : BitVec 512 :=
+  let rows := sched.foldl (fun rws sk => mapRowsH (fun t => v64p_enc_round t.1 t.2.1 t.2.2.1 t.2.2.2 sk) rws) (v64p_enc_load_u0 input)
+  v64p_enc_store_u0 rows.1 rows.2.1 rows.2.2.1 rows.2.2.2
+def vecDec8hu (sched : List (BitVec 32)) (input : BitVec 512) : BitVec 512 :=
+  let rows := sched.foldl (fun rws sk => mapRowsH (fun t => v64p_dec_round t.1 t.2.1 t.2.2.1 t.2.2.2 sk) rws) (v64p_dec_load_u0 input)
+  v64p_dec_store_u0 rows.1 rows.2.1 rows.2.2.1 rows.2.2.2
+
+theorem eq_of_blocks {w : Nat} (k n : Nat) (hk : 0 < k) (hw : w ≤ k * n) (a b : BitVec w)
+    (h : ∀ j, j < n → a.extractLsb' (k * j) k = b.extractLsb' (k * j) k) : a = b :=
+  eq_of_lanes k n hk hw a b (fun i hi => h i hi)
+
+/-- **C12 for the vector files**: the byte-wise load / store configuration computes the same batch function -/
+theorem C12_vec_unaligned_paths :
+    (∀ sched input, vecEnc4u sched input = vecEnc4 sched input) ∧ (∀ sched input, vecDec4u sched input = vecDec4 sched input) ∧
+    (∀ sched input, vecEnc8u sched input = vecEnc8 sched input) ∧ (∀ sched input, vecDec8u sched input = vecDec8 sched input) ∧
+    (∀ sched input, vecEnc8hu sched input = vecEnc8h sched input) ∧ (∀ sched input, vecDec8hu sched input = vecDec8h sched input) := by
+  refine ⟨?_, ?_, ?_, ?_, ?_, ?_⟩ <;> intro sched input
+  · apply eq_of_blocks 128 4 (by decide) (by decide); intro j hj
+    rw [vecEnc4_block _ _ j hj]; simp only [vecEnc4u]
+    rw [v128p_enc_store_u0_lane _ j hj, laneRows_fold (fun t sk => v128p_enc_round t.1 t.2.1 t.2.2.1 t.2.2.2 sk) sched _ j hj,
+      v128p_enc_rounds_scalar, v128p_enc_load_u0_lane input j hj]
+  · apply eq_of_blocks 128 4 (by decide) (by decide); intro j hj
+    rw [vecDec4_block _ _ j hj]; simp only [vecDec4u]
+    rw [v128p_dec_store_u0_lane _ j hj, laneRows_fold (fun t sk => v128p_dec_round t.1 t.2.1 t.2.2.1 t.2.2.2 sk) sched _ j hj,
+      v128p_dec_rounds_scalar, v128p_dec_load_u0_lane input j hj]
+  · apply eq_of_blocks 128 8 (by decide) (by decide); intro j hj
+    rw [vecEnc8_block _ _ j hj]; simp only [vecEnc8u]
+    rw [v256p_enc_store_u0_lane _ j hj, laneRows8_fold (fun t sk => v256p_enc_round t.1 t.2.1 t.2.2.1 t.2.2.2 sk) sched _ j hj,
+      v256p_enc_rounds_scalar, v256p_enc_load_u0_lane input j hj]
+  · apply eq_of_blocks 128 8 (by decide) (by decide); intro j hj
+    rw [vecDec8_block _ _ j hj]; simp only [vecDec8u]
+    rw [v256p_dec_store_u0_lane _ j hj, laneRows8_fold (fun t sk => v256p_dec_round t.1 t.2.1 t.2.2.1 t.2.2.2 sk) sched _ j hj,
+      v256p_dec_rounds_scalar, v256p_dec_load_u0_lane input j hj]
+  · apply eq_of_blocks 64 8 (by decide) (by decide); intro j hj
+    rw [vecEnc8h_block _ _ j hj]; simp only [vecEnc8hu]
+    rw [v64p_enc_store_u0_lane _ j hj, laneRowsH_fold (fun t sk => v64p_enc_round t.1 t.2.1 t.2.2.1 t.2.2.2 sk) sched _ j hj,
+      v64p_enc_rounds_scalar, v64p_enc_load_u0_lane input j hj]
+  · apply eq_of_blocks 64 8 (by decide) (by decide); intro j hj
+    rw [vecDec8h_block _ _ j hj]; simp only [vecDec8hu]
+    rw [v64p_dec_store_u0_lane _ j hj, laneRowsH_fold (fun t sk => v64p_dec_round t.1 t.2.1 t.2.2.1 t.2.2.2 sk) sched _ j hj,
+      v64p_dec_rounds_scalar, v64p_dec_load_u0_lane input j hj]
 
 end SkinnyVerif.Properties
